@@ -88,6 +88,16 @@ Theorem C08_early_put_refuted : exists es c,
   got_of (prun early_put_disc pinit es) c <> got_of (prun early_put_disc pinit (alone c es)) c.
 Proof. exists ex_early, 1. vm_compute. discriminate. Qed.
 
+(* prefetch adopting the temporary pooled chunk as the buffer of a Connection that has nothing
+   buffered (e.g. one made by Wrap: connection 1 below is such a branch/wrapped Connection) *)
+Definition ex_adopt : list pevent :=
+  [ PFork 9 1; PPrefetch 1 (unhex "41414141") None 0; PGet 2 (Some 0);
+    PPrefetch 2 (unhex "42424242") None 0; PRead 1 4 ].
+
+Theorem C08_prefetch_adopts_chunk_refuted : exists es c,
+  got_of (prun adopt_tmp_disc pinit es) c <> got_of (prun adopt_tmp_disc pinit (alone c es)) c.
+Proof. exists ex_adopt, 1. vm_compute. discriminate. Qed.
+
 (* non-vacuity: a schedule with three overlapping connections, a buffer that grows past one
    chunk (private array), pool reuse, hand-over and late reads *)
 Definition ex_good : list pevent :=
@@ -148,6 +158,7 @@ Print Assumptions C08_verdicts_independent.
 Print Assumptions C08_listener_hijack_refuted.
 Print Assumptions C08_tee_branch_outlives_refuted.
 Print Assumptions C08_early_put_refuted.
+Print Assumptions C08_prefetch_adopts_chunk_refuted.
 Print Assumptions C08_example_good.
 Print Assumptions C08_discipline_sound.
 Print Assumptions C08_discipline_complete.
